@@ -168,20 +168,23 @@ func shiftSet(s lenset, d int64) lenset { // {n - d | n ∈ s, n ≥ d}
 type relKey struct{ x, v types.Object }
 
 type state struct {
-	dead  bool
-	lens  map[types.Object]lenset
-	lo    map[types.Object]int64
-	hi    map[types.Object]int64
-	rel   map[relKey]int64              // len(x) ≥ v + c
-	alias map[types.Object]types.Object // n == len(x)
-	par   map[types.Object]int          // parity of len(x) (slice / string variables) or of v (integer variables)
-	lge   map[relKey]int64              // len(x) ≥ len(v) + c   (v a slice / string variable here)
+	dead   bool
+	lens   map[types.Object]lenset
+	lo     map[types.Object]int64
+	hi     map[types.Object]int64
+	rel    map[relKey]int64              // len(x) ≥ v + c
+	alias  map[types.Object]types.Object // n == len(x)
+	par    map[types.Object]int          // parity of len(x) (slice / string variables) or of v (integer variables)
+	lge    map[relKey]int64              // len(x) ≥ len(v) + c   (v a slice / string variable here)
+	nonNil map[types.Object]bool         // v is known present / non-nil (its `ok` flag was tested, or v != nil)
+	okOf   map[types.Object]types.Object // ok flag ↦ the value it was returned with (`v, ok := f()`)
+	nilSrc map[types.Object]string       // v was assigned from a call of a function that can return nil (callee name)
 }
 
 func newState() *state {
 	return &state{lens: map[types.Object]lenset{}, lo: map[types.Object]int64{}, hi: map[types.Object]int64{},
 		rel: map[relKey]int64{}, alias: map[types.Object]types.Object{}, par: map[types.Object]int{},
-		lge: map[relKey]int64{}}
+		lge: map[relKey]int64{}, nonNil: map[types.Object]bool{}, okOf: map[types.Object]types.Object{}, nilSrc: map[types.Object]string{}}
 }
 
 func deadState() *state { s := newState(); s.dead = true; return s }
@@ -209,6 +212,15 @@ func (s *state) clone() *state {
 	}
 	for k, v := range s.lge {
 		n.lge[k] = v
+	}
+	for k, v := range s.nonNil {
+		n.nonNil[k] = v
+	}
+	for k, v := range s.okOf {
+		n.okOf[k] = v
+	}
+	for k, v := range s.nilSrc {
+		n.nilSrc[k] = v
 	}
 	return n
 }
@@ -273,11 +285,39 @@ func joinState(a, b *state) *state {
 			n.lge[k] = v
 		}
 	}
+	for k := range a.nonNil {
+		if b.nonNil[k] {
+			n.nonNil[k] = true
+		}
+	}
+	for k, v := range a.okOf {
+		if b.okOf[k] == v {
+			n.okOf[k] = v
+		}
+	}
+	// may-information: a value that can be nil on either path can be nil after the join
+	for k, v := range a.nilSrc {
+		n.nilSrc[k] = v
+	}
+	for k, v := range b.nilSrc {
+		n.nilSrc[k] = v
+	}
 	return n
 }
 
-// forget everything known about obj (it was assigned)
+var killHook func(obj types.Object) []types.Object
+
+// forget everything known about obj (it was assigned), and about the field paths that hang off it
 func (s *state) kill(obj types.Object) {
+	s.kill1(obj)
+	if killHook != nil {
+		for _, d := range killHook(obj) {
+			s.kill1(d)
+		}
+	}
+}
+
+func (s *state) kill1(obj types.Object) {
 	delete(s.lens, obj)
 	delete(s.lo, obj)
 	delete(s.hi, obj)
@@ -296,6 +336,14 @@ func (s *state) kill(obj types.Object) {
 	for k := range s.lge {
 		if k.x == obj || k.v == obj {
 			delete(s.lge, k)
+		}
+	}
+	delete(s.nonNil, obj)
+	delete(s.nilSrc, obj)
+	delete(s.okOf, obj)
+	for k, v := range s.okOf {
+		if v == obj {
+			delete(s.okOf, k)
 		}
 	}
 }
@@ -489,6 +537,12 @@ type analyser struct {
 	evenStep  map[types.Object]bool // scratch of assignedIn: every assignment is `+= even constant`
 	boolDef   map[types.Object]ast.Expr
 	x         *xinfo
+	paths     map[string]types.Object       // field paths rooted at a local (`s.timeStamps`, `state.bulkLen`) as pseudo-variables
+	pathRoot  map[types.Object]types.Object // pseudo-variable ↦ its root local
+	pathKey   map[types.Object]string
+	noPath    map[string]bool       // paths whose address is taken
+	tainted   map[types.Object]bool // fact F6: locals that (may) hold bytes of the command words (flow-insensitive, per function)
+	errTaint  map[types.Object]bool // … error values of calls that received such bytes (callee not known to return constant errors)
 }
 
 // what is shared by all packages: the registered executors and how they are called
@@ -497,6 +551,314 @@ type xinfo struct {
 	escaped  map[types.Object]bool // … that are also used as a value somewhere else
 	execType types.Type            // memdb.cmdExecutor
 	calls    []execCall
+	replies  []replySite           // fact F6
+	literal  int                   // line-reply constructor calls whose payload is a compile-time constant
+	constErr map[types.Object]bool // functions whose every returned error is nil or an error with a compile-time constant text
+	nilable  map[types.Object]bool // functions whose first result (pointer / interface) is nil on some return
+	nils     []nilSite
+}
+
+// Fact F6 — a call of a constructor whose payload is sent as a LINE (simple string `+…`, error `-…`, plain): the payload must not
+// contain CR or LF.  Recorded: every such call whose payload is not a compile-time constant string; `client` says that the payload is
+// derived from the command words (a [][]byte parameter: cmd[i], string(cmd[i]), strings.ToLower(string(cmd[i])), concatenations,
+// fmt.Sprintf with such an argument, the error of a call that received one, locals assigned from any of these — flow-insensitively).
+type replySite struct {
+	File   string `json:"file"`
+	Func   string `json:"func"`
+	Line   int    `json:"line"`
+	Text   string `json:"text"`
+	Client bool   `json:"client"`
+	ViaErr bool   `json:"via_err"` // only through the error value of a call that received client bytes (callee not proved to return constant errors)
+}
+
+var lineCtors = map[string]bool{"MakeStringData": true, "MakeErrorData": true, "MakeWrongNumberArgs": true, "MakePlainData": true}
+var lineTypes = map[string]bool{"StringData": true, "ErrorData": true, "PlainData": true}
+
+func isTaintType(t types.Type) bool {
+	if t == nil {
+		return false
+	}
+	switch u := t.Underlying().(type) {
+	case *types.Basic:
+		return u.Info()&types.IsString != 0 || u.Kind() == types.Invalid
+	case *types.Slice:
+		if b, ok := u.Elem().Underlying().(*types.Basic); ok {
+			return b.Kind() == types.Byte || b.Info()&types.IsString != 0
+		}
+		return isTaintType(u.Elem())
+	case *types.Interface:
+		return true // error, any, fmt.Stringer …
+	}
+	return false
+}
+
+var errorType = types.Universe.Lookup("error").Type()
+
+func isErrorType(t types.Type) bool { return t != nil && types.Identical(t, errorType) }
+
+// the function a call expression calls, when it is a declared function or method
+func (a *analyser) callee(v *ast.CallExpr) types.Object {
+	switch f := ast.Unparen(v.Fun).(type) {
+	case *ast.Ident:
+		if fn, ok := a.info.Uses[f].(*types.Func); ok {
+			return fn
+		}
+	case *ast.SelectorExpr:
+		if fn, ok := a.info.Uses[f.Sel].(*types.Func); ok {
+			return fn
+		}
+	}
+	return nil
+}
+
+// e mentions an error value that stems from a call which received client bytes
+func (a *analyser) errTaintedExpr(e ast.Expr) bool {
+	found := false
+	ast.Inspect(e, func(n ast.Node) bool {
+		if id, ok := n.(*ast.Ident); ok {
+			if o := a.info.Uses[id]; o != nil && a.errTaint[o] {
+				found = true
+			}
+		}
+		return !found
+	})
+	return found
+}
+
+func (a *analyser) taintedExpr(e ast.Expr) bool {
+	switch v := ast.Unparen(e).(type) {
+	case *ast.Ident:
+		if o := a.info.Uses[v]; o != nil {
+			return a.tainted[o]
+		}
+		return a.tainted[a.info.Defs[v]]
+	case *ast.IndexExpr:
+		return a.taintedExpr(v.X)
+	case *ast.SliceExpr:
+		return a.taintedExpr(v.X)
+	case *ast.StarExpr:
+		return a.taintedExpr(v.X)
+	case *ast.UnaryExpr:
+		return a.taintedExpr(v.X)
+	case *ast.BinaryExpr:
+		return v.Op == token.ADD && (a.taintedExpr(v.X) || a.taintedExpr(v.Y))
+	case *ast.CompositeLit:
+		for _, el := range v.Elts {
+			if kv, ok := el.(*ast.KeyValueExpr); ok {
+				el = kv.Value
+			}
+			if a.taintedExpr(el) {
+				return true
+			}
+		}
+	case *ast.CallExpr:
+		if a.builtin(v.Fun, "len") || a.builtin(v.Fun, "cap") {
+			return false
+		}
+		if t := a.info.TypeOf(v); t != nil {
+			if tup, ok := t.(*types.Tuple); ok {
+				any := false
+				for i := 0; i < tup.Len(); i++ {
+					any = any || isTaintType(tup.At(i).Type())
+				}
+				if !any {
+					return false
+				}
+			} else if !isTaintType(t) {
+				return false
+			}
+		}
+		for _, arg := range v.Args {
+			if a.taintedExpr(arg) {
+				return true
+			}
+		}
+		if sel, ok := v.Fun.(*ast.SelectorExpr); ok && a.taintedExpr(sel.X) {
+			return true // err.Error(), b.String() …
+		}
+	}
+	return false
+}
+
+// flow-insensitive closure of "assigned from something tainted" over one function
+func (a *analyser) computeTaint(params *ast.FieldList, body ast.Node) {
+	a.tainted = map[types.Object]bool{}
+	a.errTaint = map[types.Object]bool{}
+	if params != nil {
+		for _, f := range params.List {
+			for _, n := range f.Names {
+				o := a.info.Defs[n]
+				if o == nil {
+					continue
+				}
+				if sl, ok := o.Type().Underlying().(*types.Slice); ok {
+					if inner, ok := sl.Elem().Underlying().(*types.Slice); ok {
+						if b, ok := inner.Elem().Underlying().(*types.Basic); ok && b.Kind() == types.Byte {
+							a.tainted[o] = true // the command words
+						}
+					}
+				}
+			}
+		}
+	}
+	if len(a.tainted) == 0 || body == nil {
+		return
+	}
+	mark := func(l ast.Expr) bool {
+		id, ok := ast.Unparen(l).(*ast.Ident)
+		if !ok || id.Name == "_" {
+			return false
+		}
+		o := a.info.Defs[id]
+		if o == nil {
+			o = a.info.Uses[id]
+		}
+		if o == nil || a.tainted[o] || a.errTaint[o] || !isTaintType(o.Type()) {
+			return false
+		}
+		a.tainted[o] = true
+		return true
+	}
+	// an error result of a call that received client bytes: not tainted when the callee returns only constant errors
+	markCall := func(l ast.Expr, call *ast.CallExpr) bool {
+		id, ok := ast.Unparen(l).(*ast.Ident)
+		if !ok || id.Name == "_" {
+			return false
+		}
+		o := a.info.Defs[id]
+		if o == nil {
+			o = a.info.Uses[id]
+		}
+		if o == nil || !isErrorType(o.Type()) {
+			return mark(l)
+		}
+		if a.tainted[o] || a.errTaint[o] {
+			return false
+		}
+		if fn := a.callee(call); fn != nil && a.x != nil && a.x.constErr[fn] {
+			return false
+		}
+		a.errTaint[o] = true
+		return true
+	}
+	for round := 0; round < 8; round++ {
+		changed := false
+		ast.Inspect(body, func(n ast.Node) bool {
+			switch v := n.(type) {
+			case *ast.AssignStmt:
+				if len(v.Lhs) == len(v.Rhs) {
+					for i := range v.Lhs {
+						if !a.taintedExpr(v.Rhs[i]) {
+							if a.errTaintedExpr(v.Rhs[i]) && isTaintType(a.info.TypeOf(v.Lhs[i])) {
+								if o := a.objOf(v.Lhs[i]); o != nil && !a.errTaint[o] && !a.tainted[o] {
+									a.errTaint[o] = true
+									changed = true
+								}
+							}
+							continue
+						}
+						if call, ok := ast.Unparen(v.Rhs[i]).(*ast.CallExpr); ok {
+							if markCall(v.Lhs[i], call) {
+								changed = true
+							}
+						} else if mark(v.Lhs[i]) {
+							changed = true
+						}
+					}
+				} else if len(v.Rhs) == 1 && a.taintedExpr(v.Rhs[0]) {
+					call, _ := ast.Unparen(v.Rhs[0]).(*ast.CallExpr)
+					for _, l := range v.Lhs {
+						if call != nil {
+							if markCall(l, call) {
+								changed = true
+							}
+						} else if mark(l) {
+							changed = true
+						}
+					}
+				}
+			case *ast.ValueSpec:
+				for i, name := range v.Names {
+					if len(v.Values) == len(v.Names) && a.taintedExpr(v.Values[i]) && mark(name) {
+						changed = true
+					} else if len(v.Values) == 1 && len(v.Names) > 1 && a.taintedExpr(v.Values[0]) && mark(name) {
+						changed = true
+					}
+				}
+			case *ast.RangeStmt:
+				if a.taintedExpr(v.X) && v.Value != nil && mark(v.Value) {
+					changed = true
+				}
+			}
+			return true
+		})
+		if !changed {
+			break
+		}
+	}
+}
+
+func (a *analyser) replyCall(v *ast.CallExpr) {
+	if a.x == nil {
+		return
+	}
+	var id *ast.Ident
+	switch f := v.Fun.(type) {
+	case *ast.Ident:
+		id = f
+	case *ast.SelectorExpr:
+		id = f.Sel
+	}
+	if id == nil || !lineCtors[id.Name] {
+		return
+	}
+	fn, ok := a.info.Uses[id].(*types.Func)
+	if !ok || fn.Pkg() == nil || !strings.HasSuffix(fn.Pkg().Path(), "/resp") {
+		return
+	}
+	lit, client, viaErr := true, false, false
+	for _, arg := range v.Args {
+		if tv, ok := a.info.Types[arg]; !ok || tv.Value == nil {
+			lit = false
+		}
+		if a.taintedExpr(arg) {
+			client = true
+		}
+		if a.errTaintedExpr(arg) {
+			viaErr = true
+		}
+	}
+	if lit {
+		a.x.literal++
+		return
+	}
+	a.x.replies = append(a.x.replies, replySite{File: a.file, Func: a.fn, Line: a.fset.Position(v.Pos()).Line, Text: a.text(v), Client: client, ViaErr: viaErr && !client})
+}
+
+// &resp.ErrorData{data: x} and friends (possible only inside package resp)
+func (a *analyser) replyLit(v *ast.CompositeLit) {
+	if a.x == nil || lineCtors[a.fn] {
+		return
+	}
+	t := a.info.TypeOf(v)
+	if t == nil {
+		return
+	}
+	named, ok := t.(*types.Named)
+	if !ok || named.Obj().Pkg() == nil || !strings.HasSuffix(named.Obj().Pkg().Path(), "/resp") || !lineTypes[named.Obj().Name()] {
+		return
+	}
+	for _, el := range v.Elts {
+		val := el
+		if kv, ok := el.(*ast.KeyValueExpr); ok {
+			val = kv.Value
+		}
+		if tv, ok := a.info.Types[val]; ok && tv.Value != nil {
+			a.x.literal++
+			continue
+		}
+		a.x.replies = append(a.x.replies, replySite{File: a.file, Func: a.fn, Line: a.fset.Position(v.Pos()).Line, Text: a.text(v), Client: a.taintedExpr(val)})
+	}
 }
 
 // every executor is entered with at least this many words (the command name): assumed when an executor is analysed,
@@ -522,10 +884,96 @@ func (a *analyser) record(n ast.Node, kind, class string, needed, minlen int64, 
 		Class: class, Needed: needed, MinLen: minlen, Base: base})
 }
 
+// Field paths.  `r.f.g` with r a tracked local and f, g struct fields is treated as a variable of its own.  Besides an assignment to the
+// path, to a prefix of it or to r, EVERY call that is evaluated (other than builtins and conversions) forgets all facts about all paths —
+// a callee may reach the struct through a pointer.  Other goroutines are not considered (the structures concerned are accessed under the
+// key's stripe or owned by one goroutine).
+func (a *analyser) pathObj(e ast.Expr) types.Object {
+	sel, ok := ast.Unparen(e).(*ast.SelectorExpr)
+	if !ok || a.paths == nil {
+		return nil
+	}
+	names := []string{}
+	var cur ast.Expr = sel
+	for {
+		s, ok := ast.Unparen(cur).(*ast.SelectorExpr)
+		if !ok {
+			break
+		}
+		if sl := a.info.Selections[s]; sl == nil || sl.Kind() != types.FieldVal {
+			return nil
+		}
+		names = append([]string{s.Sel.Name}, names...)
+		cur = s.X
+	}
+	id, ok := ast.Unparen(cur).(*ast.Ident)
+	if !ok {
+		return nil
+	}
+	root := a.info.Uses[id]
+	if root == nil || a.pathRoot[root] != nil || !a.local(root) {
+		return nil
+	}
+	key := fmt.Sprintf("%p.%s", root, strings.Join(names, "."))
+	if a.noPath[id.Name+"."+strings.Join(names, ".")] {
+		return nil
+	}
+	if o, ok := a.paths[key]; ok {
+		return o
+	}
+	t := a.info.TypeOf(e)
+	if t == nil {
+		return nil
+	}
+	o := types.NewVar(token.NoPos, a.pkg, id.Name+"."+strings.Join(names, "."), t)
+	a.paths[key], a.pathRoot[o], a.pathKey[o] = o, root, key
+	return o
+}
+
+// the pseudo-variables that die with obj: paths rooted at it, and longer paths
+func (a *analyser) dependents(obj types.Object) []types.Object {
+	var out []types.Object
+	key, isPath := a.pathKey[obj]
+	for p, root := range a.pathRoot {
+		if root == obj || (isPath && strings.HasPrefix(a.pathKey[p], key+".")) {
+			out = append(out, p)
+		}
+	}
+	return out
+}
+
+func (a *analyser) containsCall(n ast.Node) bool {
+	if n == nil || len(a.pathRoot) == 0 {
+		return false
+	}
+	found := false
+	ast.Inspect(n, func(c ast.Node) bool {
+		if call, ok := c.(*ast.CallExpr); ok {
+			if id, isId := ast.Unparen(call.Fun).(*ast.Ident); isId {
+				if _, isB := a.info.Uses[id].(*types.Builtin); isB {
+					return true
+				}
+			}
+			if tv, ok := a.info.Types[call.Fun]; ok && tv.IsType() {
+				return true
+			}
+			found = true
+		}
+		return !found
+	})
+	return found
+}
+
+func (a *analyser) killPaths(st *state) {
+	for p := range a.pathRoot {
+		st.kill(p)
+	}
+}
+
 func (a *analyser) objOf(e ast.Expr) types.Object {
 	id, ok := ast.Unparen(e).(*ast.Ident)
 	if !ok {
-		return nil
+		return a.pathObj(e)
 	}
 	if o := a.info.Uses[id]; o != nil {
 		return o
@@ -534,6 +982,9 @@ func (a *analyser) objOf(e ast.Expr) types.Object {
 }
 
 func (a *analyser) local(obj types.Object) bool {
+	if a.pathRoot[obj] != nil {
+		return true
+	}
 	v, ok := obj.(*types.Var)
 	if !ok || v.IsField() || a.untracked[obj] || obj.Pkg() == nil {
 		return false
@@ -650,6 +1101,10 @@ func (a *analyser) lin(e ast.Expr, st *state) linForm {
 			}
 			return linForm{kind: lfVar, obj: obj}
 		}
+	case *ast.SelectorExpr:
+		if obj := a.intVar(v); obj != nil {
+			return linForm{kind: lfVar, obj: obj}
+		}
 	case *ast.CallExpr:
 		if a.builtin(v.Fun, "len") && len(v.Args) == 1 {
 			if x := a.lenVar(v.Args[0]); x != nil {
@@ -763,6 +1218,27 @@ func (a *analyser) assumeCmp(st *state, l linForm, op token.Token, r linForm) {
 				st.dead = true
 			}
 		}
+	case l.kind == lfLen && r.kind == lfLen && l.obj != r.obj:
+		// len(x) + c1 op len(y) + c2
+		set := func(x, y types.Object, c int64) { // len(x) ≥ len(y) + c
+			k := relKey{x, y}
+			if cur, ok := st.lge[k]; !ok || c > cur {
+				st.lge[k] = c
+			}
+		}
+		switch op {
+		case token.EQL:
+			set(l.obj, r.obj, r.c-l.c)
+			set(r.obj, l.obj, l.c-r.c)
+		case token.GEQ:
+			set(l.obj, r.obj, r.c-l.c)
+		case token.GTR:
+			set(l.obj, r.obj, r.c-l.c+1)
+		case token.LEQ:
+			set(r.obj, l.obj, l.c-r.c)
+		case token.LSS:
+			set(r.obj, l.obj, l.c-r.c+1)
+		}
 	case l.kind == lfLen && r.kind == lfVar:
 		a.assumeCmp(st, r, flipOp(op), l)
 	case l.kind == lfVar && r.kind == lfLen:
@@ -794,6 +1270,14 @@ func (a *analyser) assumeCmp(st *state, l linForm, op token.Token, r linForm) {
 
 // the state in which cond evaluated to pol
 func (a *analyser) assume(st *state, cond ast.Expr, pol bool) *state {
+	r := a.assume0(st, cond, pol)
+	if a.containsCall(cond) {
+		a.killPaths(r) // the call may run after the comparison it stands next to
+	}
+	return r
+}
+
+func (a *analyser) assume0(st *state, cond ast.Expr, pol bool) *state {
 	if st.dead || a.bail {
 		return st.clone()
 	}
@@ -803,6 +1287,11 @@ func (a *analyser) assume(st *state, cond ast.Expr, pol bool) *state {
 		// b := <condition over variables that are never re-assigned>, b itself never re-assigned
 		if def, ok := a.boolDef[a.info.Uses[v]]; ok {
 			return a.assume(st, def, pol)
+		}
+		if val, ok := st.okOf[a.info.Uses[v]]; ok && pol {
+			n := st.clone()
+			n.nonNil[val] = true
+			return n
 		}
 	case *ast.UnaryExpr:
 		if v.Op == token.NOT {
@@ -820,6 +1309,19 @@ func (a *analyser) assume(st *state, cond ast.Expr, pol bool) *state {
 			op := v.Op
 			if !pol {
 				op = negOp(op)
+			}
+			// p != nil
+			if op == token.NEQ || op == token.EQL {
+				for _, pair := range [][2]ast.Expr{{v.X, v.Y}, {v.Y, v.X}} {
+					if id, ok := ast.Unparen(pair[1]).(*ast.Ident); ok && id.Name == "nil" && a.info.Uses[id] == types.Universe.Lookup("nil") {
+						if p := a.objOf(pair[0]); p != nil && a.local(p) {
+							if op == token.NEQ {
+								n.nonNil[p] = true
+							}
+							return n
+						}
+					}
+				}
 			}
 			// len(x)&1 == k, len(x)%2 == k
 			if bx, ok := ast.Unparen(v.X).(*ast.BinaryExpr); ok && (op == token.EQL || op == token.NEQ) {
@@ -1209,8 +1711,25 @@ func (a *analyser) expr(e ast.Node, st *state) {
 		a.expr(v.X, st)
 		if v.Type != nil && !st.dead {
 			a.record(v, "assert", "dynamic", 0, 0, "")
+			var src types.Object
+			if o := a.objOf(v.X); o != nil && a.local(o) {
+				src = o
+			}
+			a.nilRecord(v, "assert", src, st)
 		}
 		return
+	case *ast.SelectorExpr:
+		if o := a.objOf(v.X); o != nil && a.local(o) && !a.bail {
+			if _, from := st.nilSrc[o]; from {
+				a.nilRecord(v, "deref", o, st)
+			}
+		}
+	case *ast.StarExpr:
+		if o := a.objOf(v.X); o != nil && a.local(o) && !a.bail {
+			if _, from := st.nilSrc[o]; from {
+				a.nilRecord(v, "deref", o, st)
+			}
+		}
 	case *ast.CallExpr:
 		if a.builtin(v.Fun, "make") {
 			for _, arg := range v.Args[1:] {
@@ -1219,6 +1738,7 @@ func (a *analyser) expr(e ast.Node, st *state) {
 			a.makeSite(v, st)
 			return
 		}
+		a.replyCall(v)
 		if a.x != nil && len(v.Args) == 4 && !st.dead {
 			isExec := false
 			if t := a.info.TypeOf(v.Fun); t != nil && a.x.execType != nil && types.Identical(t, a.x.execType) {
@@ -1243,6 +1763,8 @@ func (a *analyser) expr(e ast.Node, st *state) {
 	case *ast.FuncLit:
 		a.closure(v, st)
 		return
+	case *ast.CompositeLit:
+		a.replyLit(v)
 	case *ast.KeyValueExpr:
 		// a struct literal's field name is not an expression
 		if _, ok := v.Key.(*ast.Ident); !ok {
@@ -1264,7 +1786,7 @@ func (a *analyser) expr(e ast.Node, st *state) {
 func (a *analyser) closure(f *ast.FuncLit, st *state) {
 	inner := newState()
 	if !st.dead && !a.bail {
-		stable := func(o types.Object) bool { return a.nassign[o] == 0 && !a.untracked[o] }
+		stable := func(o types.Object) bool { return a.nassign[o] == 0 && !a.untracked[o] && a.pathRoot[o] == nil }
 		for k, v := range st.lens {
 			if stable(k) {
 				inner.lens[k] = v
@@ -1302,10 +1824,12 @@ func (a *analyser) assignedIn(nodes ...ast.Node) map[types.Object]bool {
 	a.evenStep = map[types.Object]bool{}
 	mark := func(e ast.Expr, mono bool) {
 		id, ok := ast.Unparen(e).(*ast.Ident)
-		if !ok {
-			return
+		var obj types.Object
+		if ok {
+			obj = a.info.Uses[id]
+		} else {
+			obj, mono = a.pathObj(e), false
 		}
-		obj := a.info.Uses[id]
 		if obj == nil {
 			return
 		}
@@ -1374,6 +1898,12 @@ func (a *analyser) weaken(st *state, nodes ...ast.Node) *state {
 			}
 		} else {
 			n.kill(obj)
+		}
+	}
+	for _, nd := range nodes {
+		if nd != nil && a.containsCall(nd) {
+			a.killPaths(n)
+			break
 		}
 	}
 	return n
@@ -1525,6 +2055,10 @@ func (a *analyser) valueOf(lhsType types.Type, rhs ast.Expr, st *state) valFact 
 				f.lens = lenset{{n, n}}
 			} else if l := a.lin(v.Args[1], st); l.kind == lfLen {
 				f.lge = map[types.Object]int64{l.obj: l.c}
+			} else if l.kind == lfVar {
+				if lo, ok := st.lo[l.obj]; ok && lo+l.c > 0 {
+					f.lens = lenset{{lo + l.c, inf}}
+				}
 			}
 		case a.builtin(v.Fun, "append") && len(v.Args) >= 1 && v.Ellipsis == token.NoPos:
 			base := int64(0)
@@ -1651,6 +2185,9 @@ func (a *analyser) assign(s *ast.AssignStmt, st *state) *state {
 		for i, f := range facts {
 			a.install(st, a.objOf(s.Lhs[i]), f)
 		}
+		if !a.bail {
+			a.nilFacts(st, s.Lhs, s.Rhs)
+		}
 	case token.QUO_ASSIGN, token.REM_ASSIGN:
 		a.divSite(s, nil, s.Rhs[0], st)
 		if obj := a.objOf(s.Lhs[0]); obj != nil {
@@ -1678,6 +2215,24 @@ func (a *analyser) assign(s *ast.AssignStmt, st *state) *state {
 }
 
 func (a *analyser) stmt(s ast.Stmt, st *state) *state {
+	switch s.(type) {
+	case *ast.ExprStmt, *ast.AssignStmt, *ast.IncDecStmt, *ast.DeclStmt, *ast.SendStmt, *ast.GoStmt, *ast.DeferStmt:
+		out := a.stmt0(s, st)
+		if a.containsCall(s) && !out.dead {
+			out = out.clone()
+			a.killPaths(out)
+		}
+		return out
+	case *ast.SwitchStmt:
+		if sw := s.(*ast.SwitchStmt); sw.Tag != nil && a.containsCall(sw.Tag) {
+			st = st.clone()
+			a.killPaths(st)
+		}
+	}
+	return a.stmt0(s, st)
+}
+
+func (a *analyser) stmt0(s ast.Stmt, st *state) *state {
 	if a.bail {
 		st = newState()
 	}
@@ -1790,6 +2345,7 @@ func (a *analyser) stmt(s ast.Stmt, st *state) *state {
 		if st.dead {
 			return st
 		}
+		a.forAppend(v, st, head)
 		return head
 	case *ast.RangeStmt:
 		a.expr(v.X, st)
@@ -1814,7 +2370,7 @@ func (a *analyser) stmt(s ast.Stmt, st *state) *state {
 						body.hi[key] = n - 1
 					}
 					if x := a.lenVar(v.X); x != nil {
-						if _, reassigned := a.assignedIn(v.Body)[x]; !reassigned {
+						if _, reassigned := a.assignedIn(v.Body)[x]; !reassigned && !(a.pathRoot[x] != nil && a.containsCall(v.Body)) {
 							body.rel[relKey{x, key}] = 1
 						}
 					}
@@ -1845,6 +2401,9 @@ func (a *analyser) stmt(s ast.Stmt, st *state) *state {
 				op = token.NEQ
 			}
 			a.assumeCmp(n, a.lin(v.Tag, cur), op, a.lin(c, cur))
+			if a.containsCall(c) {
+				a.killPaths(n)
+			}
 			return n
 		})
 	case *ast.TypeSwitchStmt:
@@ -1960,6 +2519,16 @@ func (a *analyser) prepare(body ast.Node) {
 	a.nassign = map[types.Object]int{}
 	a.counter = map[types.Object]bool{}
 	a.boolDef = map[types.Object]ast.Expr{}
+	a.paths, a.pathRoot, a.pathKey, a.noPath = map[string]types.Object{}, map[types.Object]types.Object{}, map[types.Object]string{}, map[string]bool{}
+	killHook = a.dependents
+	ast.Inspect(body, func(n ast.Node) bool {
+		if u, ok := n.(*ast.UnaryExpr); ok && u.Op == token.AND {
+			if _, isSel := ast.Unparen(u.X).(*ast.SelectorExpr); isSel {
+				a.noPath[a.text(u.X)] = true
+			}
+		}
+		return true
+	})
 	a.bail = false
 	boolCand := map[types.Object]ast.Expr{}
 	notCounter := map[types.Object]bool{}
@@ -2161,7 +2730,7 @@ func funcName(fd *ast.FuncDecl) string {
 
 var sitePkgs = []string{"memdb", "server", "resp", "util", "raftexample"}
 
-func extractSites(repo string) ([]siteOut, []execCall, error) {
+func extractSites(repo string) ([]siteOut, *xinfo, error) {
 	fset := token.NewFileSet()
 	l := &loader{repo: repo, fset: fset, cache: map[string]*loadedPkg{}}
 	l.std = importer.ForCompiler(fset, "source", nil)
@@ -2172,6 +2741,8 @@ func extractSites(repo string) ([]siteOut, []execCall, error) {
 		}
 	}
 	x := scanExecutors(l)
+	scanConstErr(l, x)
+	scanNilable(l, x)
 	for _, p := range sitePkgs {
 		path := "github.com/innovationb1ue/RedisGO/" + p
 		lp := l.cache[path]
@@ -2188,6 +2759,7 @@ func extractSites(repo string) ([]siteOut, []execCall, error) {
 					}
 					a.fn = funcName(v)
 					a.prepare(v.Body)
+					a.computeTaint(v.Type.Params, v.Body)
 					entry := newState()
 					if obj := lp.info.Defs[v.Name]; obj != nil && x.execs[obj] && !x.escaped[obj] && !a.bail {
 						// a registered executor: its third parameter is the command, entered with ≥ execEntryMin words
@@ -2208,6 +2780,7 @@ func extractSites(repo string) ([]siteOut, []execCall, error) {
 					}
 					a.fn = "<package var>"
 					a.prepare(v)
+					a.tainted = map[types.Object]bool{}
 					for _, sp := range v.Specs {
 						for _, val := range sp.(*ast.ValueSpec).Values {
 							a.expr(val, newState())
@@ -2229,7 +2802,19 @@ func extractSites(repo string) ([]siteOut, []execCall, error) {
 		}
 		return x.calls[i].Line < x.calls[j].Line
 	})
-	return out, x.calls, nil
+	sort.SliceStable(x.nils, func(i, j int) bool {
+		if x.nils[i].File != x.nils[j].File {
+			return x.nils[i].File < x.nils[j].File
+		}
+		return x.nils[i].Line < x.nils[j].Line
+	})
+	sort.SliceStable(x.replies, func(i, j int) bool {
+		if x.replies[i].File != x.replies[j].File {
+			return x.replies[i].File < x.replies[j].File
+		}
+		return x.replies[i].Line < x.replies[j].Line
+	})
+	return out, x, nil
 }
 
 func isDefOf(info *types.Info, l ast.Expr, o types.Object) bool {
@@ -2361,5 +2946,420 @@ func (a *analyser) rangeAppend(v *ast.RangeStmt, before, after *state) {
 			after.lens[y] = lenset{{n, inf}}
 		}
 		after.lge[relKey{y, x}] = 0
+	}
+}
+
+// functions of the inventoried packages whose every returned error is nil, a package-level `errors.New("constant")`, an inline
+// errors.New / fmt.Errorf of a constant, or the error of a call of such a function (least fixed point)
+func scanConstErr(l *loader, x *xinfo) {
+	x.constErr = map[types.Object]bool{}
+	type fdecl struct {
+		fd   *ast.FuncDecl
+		info *types.Info
+	}
+	var all []fdecl
+	constVar := map[types.Object]bool{}
+	isConstErrCall := func(info *types.Info, e ast.Expr) bool {
+		c, ok := ast.Unparen(e).(*ast.CallExpr)
+		if !ok {
+			return false
+		}
+		n := callName(c.Fun)
+		if (n == "errors.New" && len(c.Args) == 1) || (n == "fmt.Errorf" && len(c.Args) == 1) {
+			tv, ok := info.Types[c.Args[0]]
+			return ok && tv.Value != nil
+		}
+		return false
+	}
+	for _, p := range sitePkgs {
+		lp := l.cache["github.com/innovationb1ue/RedisGO/"+p]
+		if lp == nil {
+			continue
+		}
+		for _, f := range lp.files {
+			for _, d := range f.Decls {
+				switch v := d.(type) {
+				case *ast.FuncDecl:
+					if v.Body != nil {
+						all = append(all, fdecl{v, lp.info})
+					}
+				case *ast.GenDecl:
+					if v.Tok != token.VAR {
+						continue
+					}
+					for _, sp := range v.Specs {
+						vs := sp.(*ast.ValueSpec)
+						for i, name := range vs.Names {
+							if len(vs.Values) == len(vs.Names) && isConstErrCall(lp.info, vs.Values[i]) {
+								constVar[lp.info.Defs[name]] = true
+							}
+						}
+					}
+				}
+			}
+		}
+	}
+	// a package-level error variable must never be re-assigned
+	for _, p := range sitePkgs {
+		lp := l.cache["github.com/innovationb1ue/RedisGO/"+p]
+		if lp == nil {
+			continue
+		}
+		for _, f := range lp.files {
+			ast.Inspect(f, func(n ast.Node) bool {
+				if as, ok := n.(*ast.AssignStmt); ok {
+					for _, lh := range as.Lhs {
+						if id, ok := lh.(*ast.Ident); ok {
+							delete(constVar, lp.info.Uses[id])
+						}
+					}
+				}
+				if u, ok := n.(*ast.UnaryExpr); ok && u.Op == token.AND {
+					if id, ok := u.X.(*ast.Ident); ok {
+						delete(constVar, lp.info.Uses[id])
+					}
+				}
+				return true
+			})
+		}
+	}
+	calleeOf := func(info *types.Info, e ast.Expr) types.Object {
+		c, ok := ast.Unparen(e).(*ast.CallExpr)
+		if !ok {
+			return nil
+		}
+		switch f := ast.Unparen(c.Fun).(type) {
+		case *ast.Ident:
+			if fn, ok := info.Uses[f].(*types.Func); ok {
+				return fn
+			}
+		case *ast.SelectorExpr:
+			if fn, ok := info.Uses[f.Sel].(*types.Func); ok {
+				return fn
+			}
+		}
+		return nil
+	}
+	for round := 0; round < 6; round++ {
+		changed := false
+		for _, d := range all {
+			fd, info := d.fd, d.info
+			fn := info.Defs[fd.Name]
+			if fn == nil || x.constErr[fn] || fd.Type.Results == nil {
+				continue
+			}
+			sig, ok := fn.Type().(*types.Signature)
+			if !ok {
+				continue
+			}
+			var errIdx []int
+			for i := 0; i < sig.Results().Len(); i++ {
+				if isErrorType(sig.Results().At(i).Type()) {
+					errIdx = append(errIdx, i)
+				}
+			}
+			if len(errIdx) == 0 {
+				continue
+			}
+			var okExpr func(e ast.Expr, depth int) bool
+			okVar := func(o types.Object, depth int) bool {
+				if depth > 3 {
+					return false
+				}
+				good := true
+				ast.Inspect(fd.Body, func(n ast.Node) bool {
+					switch v := n.(type) {
+					case *ast.AssignStmt:
+						for i, lh := range v.Lhs {
+							id, isId := lh.(*ast.Ident)
+							if !isId || (info.Uses[id] != o && info.Defs[id] != o) {
+								continue
+							}
+							if len(v.Lhs) == len(v.Rhs) {
+								if !okExpr(v.Rhs[i], depth+1) {
+									good = false
+								}
+							} else if c := calleeOf(info, v.Rhs[0]); c == nil || !x.constErr[c] {
+								good = false
+							}
+						}
+					case *ast.ValueSpec:
+						for i, name := range v.Names {
+							if info.Defs[name] == o && len(v.Values) > 0 {
+								if len(v.Values) != len(v.Names) || !okExpr(v.Values[i], depth+1) {
+									good = false
+								}
+							}
+						}
+					case *ast.UnaryExpr:
+						if id, isId := v.X.(*ast.Ident); isId && v.Op == token.AND && info.Uses[id] == o {
+							good = false
+						}
+					}
+					return good
+				})
+				return good
+			}
+			okExpr = func(e ast.Expr, depth int) bool {
+				e = ast.Unparen(e)
+				if id, isId := e.(*ast.Ident); isId {
+					if id.Name == "nil" {
+						return true
+					}
+					o := info.Uses[id]
+					if o == nil {
+						return false
+					}
+					if constVar[o] {
+						return true
+					}
+					if v, isVar := o.(*types.Var); isVar && !v.IsField() && o.Parent() != o.Pkg().Scope() {
+						return okVar(o, depth)
+					}
+					return false
+				}
+				if isConstErrCall(info, e) {
+					return true
+				}
+				if c := calleeOf(info, e); c != nil && x.constErr[c] {
+					return true
+				}
+				return false
+			}
+			good := true
+			ast.Inspect(fd.Body, func(n ast.Node) bool {
+				if _, isLit := n.(*ast.FuncLit); isLit {
+					return false
+				}
+				ret, isRet := n.(*ast.ReturnStmt)
+				if !isRet || !good {
+					return good
+				}
+				switch {
+				case len(ret.Results) == 0: // named results
+					k := 0
+					for _, f := range fd.Type.Results.List {
+						for _, name := range f.Names {
+							for _, i := range errIdx {
+								if i == k && !okVar(info.Defs[name], 0) {
+									good = false
+								}
+							}
+							k++
+						}
+					}
+				case len(ret.Results) == sig.Results().Len():
+					for _, i := range errIdx {
+						if !okExpr(ret.Results[i], 0) {
+							good = false
+						}
+					}
+				default:
+					if c := calleeOf(info, ret.Results[0]); c == nil || !x.constErr[c] {
+						good = false
+					}
+				}
+				return good
+			})
+			if good {
+				x.constErr[fn] = true
+				changed = true
+			}
+		}
+		if !changed {
+			break
+		}
+	}
+}
+
+// ------------------------------------------------------------------------------------------------ nil / presence (fact F3, second part)
+
+type nilSite struct {
+	File  string `json:"file"`
+	Func  string `json:"func"`
+	Line  int    `json:"line"`
+	Text  string `json:"text"`
+	Kind  string `json:"kind"`  // assert | deref
+	Class string `json:"class"` // guarded | unguarded
+	Guard string `json:"guard,omitempty"`
+	From  string `json:"from,omitempty"`
+}
+
+func (a *analyser) nilFacts(st *state, lhs, rhs []ast.Expr) {
+	if len(rhs) != 1 {
+		return
+	}
+	call, isCall := ast.Unparen(rhs[0]).(*ast.CallExpr)
+	switch {
+	case len(lhs) == 2:
+		v, ok := a.objOf(lhs[0]), a.objOf(lhs[1])
+		if v == nil || ok == nil || !a.local(v) || !a.local(ok) {
+			return
+		}
+		if b, isB := ok.Type().Underlying().(*types.Basic); !isB || b.Kind() != types.Bool {
+			return
+		}
+		if _, isTA := ast.Unparen(rhs[0]).(*ast.TypeAssertExpr); isCall || isTA {
+			st.okOf[ok] = v
+		}
+		if isCall {
+			if fn := a.callee(call); fn != nil && a.x != nil && a.x.nilable[originOf(fn)] {
+				st.nilSrc[v] = fn.Name()
+			}
+		}
+	case len(lhs) == 1 && isCall:
+		v := a.objOf(lhs[0])
+		if v == nil || !a.local(v) {
+			return
+		}
+		if fn := a.callee(call); fn != nil && a.x != nil && a.x.nilable[originOf(fn)] {
+			st.nilSrc[v] = fn.Name()
+		}
+	}
+}
+
+func originOf(o types.Object) types.Object {
+	if f, ok := o.(*types.Func); ok {
+		return f.Origin()
+	}
+	return o
+}
+
+func (a *analyser) nilRecord(n ast.Node, kind string, v types.Object, st *state) {
+	if a.x == nil || st.dead {
+		return
+	}
+	site := nilSite{File: a.file, Func: a.fn, Line: a.fset.Position(n.Pos()).Line, Text: a.text(n), Kind: kind, Class: "unguarded"}
+	if v != nil {
+		site.From = st.nilSrc[v]
+		if st.nonNil[v] && !a.bail {
+			site.Class = "guarded"
+			site.Guard = v.Name() + " present / non-nil on every path"
+		}
+	}
+	a.x.nils = append(a.x.nils, site)
+}
+
+// functions (of the inventoried packages) whose first result is a pointer / interface and that have a `return nil, …` somewhere
+func scanNilable(l *loader, x *xinfo) {
+	x.nilable = map[types.Object]bool{}
+	for _, p := range sitePkgs {
+		lp := l.cache["github.com/innovationb1ue/RedisGO/"+p]
+		if lp == nil {
+			continue
+		}
+		for _, f := range lp.files {
+			for _, d := range f.Decls {
+				fd, ok := d.(*ast.FuncDecl)
+				if !ok || fd.Body == nil || fd.Type.Results == nil {
+					continue
+				}
+				fn := lp.info.Defs[fd.Name]
+				if fn == nil {
+					continue
+				}
+				sig, ok := fn.Type().(*types.Signature)
+				if !ok || sig.Results().Len() == 0 {
+					continue
+				}
+				switch sig.Results().At(0).Type().Underlying().(type) {
+				case *types.Pointer, *types.Interface:
+				default:
+					if _, isTP := sig.Results().At(0).Type().(*types.TypeParam); !isTP {
+						continue
+					}
+				}
+				ast.Inspect(fd.Body, func(n ast.Node) bool {
+					if _, isLit := n.(*ast.FuncLit); isLit {
+						return false
+					}
+					if ret, ok := n.(*ast.ReturnStmt); ok && len(ret.Results) > 0 {
+						if id, ok := ast.Unparen(ret.Results[0]).(*ast.Ident); ok && id.Name == "nil" {
+							x.nilable[fn] = true
+						}
+						// a zero-valued local of the result type (`var zero T; return zero`) is not recognised
+					}
+					return true
+				})
+			}
+		}
+	}
+}
+
+// for i := a; i < len(x); i++ { …; y = append(y, e1 … ek); … }  with the append a top-level statement of the body and the only assignment
+// to y in the loop, i changed only by the post statement `i++`, x not assigned, no break / continue / goto in the body: the body runs
+// max(0, len(x) − a) times, so after the loop len(y) ≥ len(x) − a (and ≥ what y had before).
+func (a *analyser) forAppend(v *ast.ForStmt, before, after *state) {
+	if a.bail || after.dead || v.Init == nil || v.Cond == nil || v.Post == nil {
+		return
+	}
+	init, ok := v.Init.(*ast.AssignStmt)
+	if !ok || len(init.Lhs) != 1 || len(init.Rhs) != 1 {
+		return
+	}
+	i := a.intVar(init.Lhs[0])
+	start, okS := a.constInt(init.Rhs[0])
+	post, okP := v.Post.(*ast.IncDecStmt)
+	cond, okC := ast.Unparen(v.Cond).(*ast.BinaryExpr)
+	if i == nil || !okS || start < 0 || !okP || post.Tok != token.INC || a.objOf(post.X) != i || !okC || cond.Op != token.LSS || a.objOf(cond.X) != i {
+		return
+	}
+	r := a.lin(cond.Y, before)
+	if r.kind != lfLen || r.c > 0 {
+		return
+	}
+	x := r.obj
+	assigned := a.assignedIn(v.Body)
+	if _, bad := assigned[x]; bad {
+		return
+	}
+	if _, bad := assigned[i]; bad {
+		return
+	}
+	branch := false
+	ast.Inspect(v.Body, func(n ast.Node) bool {
+		if _, ok := n.(*ast.BranchStmt); ok {
+			branch = true
+		}
+		return !branch
+	})
+	if branch {
+		return
+	}
+	for _, s := range v.Body.List {
+		as, ok := s.(*ast.AssignStmt)
+		if !ok || as.Tok != token.ASSIGN || len(as.Lhs) != 1 || len(as.Rhs) != 1 {
+			continue
+		}
+		call, ok := as.Rhs[0].(*ast.CallExpr)
+		if !ok || !a.builtin(call.Fun, "append") || call.Ellipsis != token.NoPos || len(call.Args) < 2 {
+			continue
+		}
+		y := a.lenVar(as.Lhs[0])
+		if y == nil || y == x || a.lenVar(call.Args[0]) != y {
+			continue
+		}
+		n := 0
+		ast.Inspect(v.Body, func(c ast.Node) bool {
+			if w, ok := c.(*ast.AssignStmt); ok {
+				for _, l := range w.Lhs {
+					if a.objOf(l) == y {
+						n++
+					}
+				}
+			}
+			if w, ok := c.(*ast.RangeStmt); ok && (a.objOf(w.Key) == y || a.objOf(w.Value) == y) {
+				n++
+			}
+			return true
+		})
+		if n != 1 {
+			continue
+		}
+		// iterations = len(x) + r.c − start (if positive)
+		after.lge[relKey{y, x}] = r.c - start
+		if base, ok := before.minLen(y); ok && base > 0 {
+			after.lens[y] = lenset{{base, inf}}
+		}
 	}
 }
